@@ -175,9 +175,9 @@ package wal
 //@ func writeUint64(w io.Writer, n uint64, buf []byte) error
 //@   trusted 8 little-endian bytes through io.Writer
 //@   requires len(buf) >= 8
-//@   ensures result == nil ==> ghost(written, nil) == old(ghost(written, nil)) + 8 && ghost(lastlen, nil) == n
+//@   ensures result == nil ==> ghost(written, nil) == old(ghost(written, nil)) + 8
 //@   ensures result != nil ==> ghost(written, nil) >= old(ghost(written, nil))
-//@   modifies ghost(written, nil), ghost(lastlen, nil), buf[0:8]
+//@   modifies ghost(written, nil), buf[0:8]
 //@ func (e *encoder) encode(rec *walpb.Record) error
 //@   requires e != nil && rec != nil && e.bw != nil && e.crc != nil && len(e.uint64buf) >= 8
 //@   ensures result == nil ==> (ghost(written, nil) - old(ghost(written, nil))) % 8 == 0 && ghost(written, nil) - old(ghost(written, nil)) >= 8 + ghost(pbsize, rec) && ghost(written, nil) - old(ghost(written, nil)) < 16 + ghost(pbsize, rec)
